@@ -77,10 +77,21 @@ def csr_layout(draw, max_regs=6, dws=CSR_DWS, overlaps=True):
             "pad": draw(st.sampled_from([0, 0, 0, 1, 2])),
         })
     lay = {"dw": dw, "al": al, "regs": regs, "extra_aw": draw(st.integers(0, 1))}
+    # registers added to the (still unfrozen) map after the multiplexer object exists, optionally
+    # after the multiplexer was already elaborated once
+    lay["late"] = draw(st.sampled_from([0, 0, 0, 0, 1, 2]))
+    lay["mid_elab"] = draw(st.booleans())
     if overlaps:
         lay["ov"] = draw(st.sampled_from([None, None, 0, 1, 2, 3]))
-        # occasionally the whole layout sits at a high base address (beyond 8 address bits)
-        lay["base"] = draw(st.sampled_from([0, 0, 0, 0, 0, 0, 250, 256, 257, 300, 1000]))
+        # occasionally the whole layout sits at a high base address (beyond 8 / 13 address bits)
+        lay["base"] = draw(st.sampled_from([0] * 10 + [250, 256, 257, 300, 1000, 8192, 8195, 20000]))
+        if draw(st.integers(0, 11)) == 0 and n >= 2:
+            regs[draw(st.integers(1, n - 1))]["far"] = 8192      # one register 2**13 addresses further on
+        if draw(st.integers(0, 39)) == 0 and dw <= 4:
+            # one very long register (more than 256 bus words)
+            regs[0] = {"w": dw * draw(st.integers(258, 262)), "acc": draw(st.sampled_from(["w", "w", "rw"])),
+                       "mode": "imp", "gap": 0, "pad": 0}
+            del regs[2:]
     return lay
 
 
@@ -100,6 +111,8 @@ def plan_csr_layout(lay):
         else:
             eff = al
             start = align_up(cursor + r["gap"], al)
+        if r.get("far"):
+            start += align_up(r["far"], eff)
         end = start + align_up(size, eff)
         out.append((start, end))
         cursor = end
@@ -107,16 +120,44 @@ def plan_csr_layout(lay):
     return aw, out
 
 
-def build_csr_map(lay, reg_factory=MockReg, name_prefix="r"):
-    """Build the MemoryMap of a layout. Returns (memory_map, [(reg, start, end)])."""
+def build_csr_mux(lay, ov=None, name_prefix="r"):
+    """Build map + multiplexer of a layout, honouring lay['late'] (registers added after the
+    Multiplexer object was constructed) and lay['mid_elab'] (the multiplexer is elaborated once
+    before the late registers are added). Returns (multiplexer, [(reg, start, end)])."""
+    n = len(lay["regs"])
+    late = min(lay.get("late", 0), n - 1)
+    mm, regs = build_csr_map(lay, name_prefix=name_prefix, count=n - late)
+    mux = csr.Multiplexer(mm, shadow_overlaps=ov)
+    if late:
+        if lay.get("mid_elab"):
+            from amaranth.hdl import Fragment
+            try:
+                Fragment.get(mux, None)
+            except ValueError:
+                pass          # a deliberately refused (unbalanceable) intermediate layout
+        _, regs = build_csr_map(lay, name_prefix=name_prefix, into=(mm, regs))
+    return mux, regs
+
+
+def build_csr_map(lay, reg_factory=MockReg, name_prefix="r", count=None, into=None):
+    """Build the MemoryMap of a layout. Returns (memory_map, [(reg, start, end)]). ``count``: only
+    the first registers; ``into``: continue a partially built (map, regs)."""
     aw, plan = plan_csr_layout(lay)
     dw, al = lay["dw"], lay["al"]
-    mm = MemoryMap(addr_width=aw, data_width=dw, alignment=al)
-    regs = []
+    if into is None:
+        mm = MemoryMap(addr_width=aw, data_width=dw, alignment=al)
+        regs = []
+    else:
+        mm, regs = into
     for i, (r, (ps, pe)) in enumerate(zip(lay["regs"], plan)):
+        if i < len(regs) or (count is not None and i >= count):
+            continue
         reg = reg_factory(r["w"], r["acc"])
         size = max(1, -(-r["w"] // dw)) + r["pad"]
-        if lay.get("base") and r["mode"] in ("imp", "nat"):
+        if r.get("far"):
+            s, e = mm.add_resource(reg, name=(f"{name_prefix}{i}",), size=size, addr=ps,
+                                   **({"alignment": ceil_log2(size)} if r["mode"] == "nat" else {}))
+        elif lay.get("base") and r["mode"] in ("imp", "nat"):
             # same placement arithmetic, but stated explicitly because the layout does not start at 0
             kw = {"alignment": ceil_log2(size)} if r["mode"] == "nat" else {}
             s, e = mm.add_resource(reg, name=(f"{name_prefix}{i}",), size=size, addr=ps, **kw)
@@ -150,18 +191,23 @@ class ES(enum.Enum, shape=signed(3)):
     P = 3
 
 
+from amaranth.lib import data as _data
+ARR = _data.ArrayLayout(unsigned(2), 3)
+STRUCT = _data.StructLayout({"a": unsigned(2), "b": signed(3)})
+
+
 def shape_of(s):
     if s[0] == "u":
         return unsigned(s[1])
     if s[0] == "s":
         return signed(s[1])
-    return {"enum": E2, "flag": F3, "senum": ES}[s[0]]
+    return {"enum": E2, "flag": F3, "senum": ES, "arr": ARR, "struct": STRUCT}[s[0]]
 
 
 def shape_width(s):
     if s[0] in ("u", "s"):
         return s[1]
-    return {"enum": 2, "flag": 3, "senum": 3}[s[0]]
+    return {"enum": 2, "flag": 3, "senum": 3, "arr": 6, "struct": 5}[s[0]]
 
 
 def shape_strategy(enums=True, max_w=9):
@@ -169,13 +215,18 @@ def shape_strategy(enums=True, max_w=9):
             st.tuples(st.just("u"), st.integers(1, 4)).map(list),
             st.tuples(st.just("s"), st.integers(1, 6)).map(list)]
     if enums:
-        opts += [st.just(["enum"]), st.just(["flag"]), st.just(["senum"])]
+        opts += [st.just(["enum"]), st.just(["flag"]), st.just(["senum"]), st.just(["arr"]), st.just(["struct"])]
+    if max_w >= 9:
+        opts += [st.tuples(st.just("u"), st.sampled_from([63, 64, 65, 72, 80])).map(list),
+                 st.tuples(st.just("s"), st.sampled_from([64, 65, 72])).map(list)]
     return st.one_of(*opts)
 
 
 def init_value(s, k):
     """A legal init value for shape spec ``s`` chosen by the integer ``k`` (as a raw pattern)."""
     w = shape_width(s)
+    if s[0] in ("arr", "struct"):
+        return k % (1 << w)
     if s[0] == "enum":
         return [0, 1, 2][k % 3]
     if s[0] == "senum":
@@ -190,6 +241,11 @@ def init_value(s, k):
 
 def init_arg(s, k):
     v = init_value(s, k)
+    if s[0] == "arr":
+        return [(v >> (2 * i)) & 3 for i in range(3)]
+    if s[0] == "struct":
+        b = (v >> 2) & 7
+        return {"a": v & 3, "b": b - 8 if b >= 4 else b}
     if s[0] == "enum":
         return E2(v)
     if s[0] == "senum":
@@ -221,8 +277,9 @@ def make_field(leaf):
     shp = shape_of(leaf["s"])
     if a.startswith("Mock"):
         return csr.Field(MockAction, shp, access=ACTION_ACCESS[a])
-    if a in ("RW", "RW1C", "RW1S") and leaf.get("init") is not None:
-        return csr.Field(ACTIONS[a], shp, init=init_arg(leaf["s"], leaf["init"]))
+    if a in ("RW", "RW1C", "RW1S") and (leaf.get("init") is not None or leaf["s"][0] in ("arr", "struct")):
+        # aggregate shapes have no usable default (the library's init=0 is not a valid initialiser for them)
+        return csr.Field(ACTIONS[a], shp, init=init_arg(leaf["s"], leaf.get("init") or 0))
     return csr.Field(ACTIONS[a], shp)
 
 
@@ -304,24 +361,30 @@ def csr_decoder_config(draw, max_subs=5, max_sub_aw=5, dws=CSR_DWS):
     return {"dw": dw, "al": al, "subs": subs, "extra_aw": draw(st.integers(0, 1)),
             "squeeze": draw(st.integers(0, 11)) == 0, "shuffle": draw(st.integers(0, 2)) == 0,
             "early_fail": draw(st.lists(st.integers(0, 4), max_size=2)) if draw(st.integers(0, 3)) == 0 else [],
-            "ghosts": draw(st.sampled_from([0, 0, 0, 1, 2]))}
+            "ghosts": draw(st.sampled_from([0, 0, 0, 1, 2])),
+            # the decoder is elaborated once after this many add() calls (None: only when complete)
+            "mid_elab": draw(st.sampled_from([None, None, None, 0, 1, 2])),
+            # windows start at a high base address (decoders with more than 32 address bits)
+            "base": draw(st.sampled_from([0] * 14 + [1 << 33, (1 << 36) + (1 << 20)])),
+            # accepted subordinates that are add()ed a second time afterwards (refused: already added)
+            "readd": draw(st.lists(st.integers(0, 4), max_size=2)) if draw(st.integers(0, 4)) == 0 else []}
 
 
-def plan_windows(al, subs_maw, subs, shuffle=False):
+def plan_windows(al, subs_maw, subs, shuffle=False, base=0):
     """Allocator arithmetic for ratio-1 windows. Returns (end, [(start, end_reserved)]) indexed like
     ``subs``. With ``shuffle`` the address order follows the per-window sort key 'pk' instead of the
     add() order (all windows are then added at explicit addresses)."""
     order = list(range(len(subs)))
     if shuffle:
         order.sort(key=lambda i: (subs[i].get("pk", 0), i))
-    cursor, out = 0, [None] * len(subs)
+    cursor, out = base, [None] * len(subs)
     for i in order:
         maw, s = subs_maw[i], subs[i]
         eff = max(al, maw)
         if s["mode"] == "align" and not shuffle:
             cursor = align_up(cursor, max(al, s["k"]))
         start = align_up(cursor, eff)
-        if s["mode"] == "slot":
+        if s["mode"] == "slot" or (base and cursor == base):
             start += s["gap"] << eff
         end = start + (1 << eff)
         out[i] = (start, end)
@@ -335,7 +398,8 @@ def build_csr_decoder(cfg, ifaces=None, prefix="w"):
     subordinate interfaces (their address widths are used instead of cfg['subs'][i]['aw'])."""
     maws = [s["aw"] for s in cfg["subs"]] if ifaces is None else [i.addr_width for i in ifaces]
     shuffle = bool(cfg.get("shuffle"))
-    end, plan = plan_windows(cfg["al"], maws, cfg["subs"], shuffle)
+    base = cfg.get("base", 0)
+    end, plan = plan_windows(cfg["al"], maws, cfg["subs"], shuffle, base)
     aw = max(1, ceil_log2(max(end, 1))) + cfg["extra_aw"]
     if cfg["squeeze"] and aw > 1:
         aw -= 1
@@ -370,11 +434,33 @@ def build_csr_decoder(cfg, ifaces=None, prefix="w"):
             kw["name"] = (f"{prefix}{i}",)
         if s["mode"] == "align" and not shuffle:
             dec.align_to(s["k"])
-        if s["mode"] == "slot" or shuffle:
+        if s["mode"] == "slot" or shuffle or (base and i == 0):
             kw["addr"] = ps
         got = dec.add(iface, **kw)
         ifaces.append(iface)
+        _mid_elab(dec, cfg, i)
+    _readd(dec, cfg, ifaces, {})
     return dec, ifaces, plan
+
+
+def _mid_elab(dec, cfg, i):
+    if cfg.get("mid_elab") is not None and cfg["mid_elab"] == i:
+        from amaranth.hdl import Fragment
+        Fragment.get(dec, None)
+        dec.mid_elaborated = True
+
+
+def _readd(dec, cfg, ifaces, kw):
+    for j in cfg.get("readd", []):
+        if ifaces:
+            f = ifaces[j % len(ifaces)]
+            try:
+                if "sparse" in kw:
+                    dec.add(f, sparse=cfg["subs"][j % len(ifaces)].get("sparse", False))
+                else:
+                    dec.add(f)
+            except ValueError:
+                dec.readd_refused = True
 
 
 @st.composite
@@ -404,7 +490,10 @@ def wb_decoder_config(draw, max_subs=5, max_sub_aw=4):
             "extra_aw": draw(st.integers(0, 1)), "squeeze": draw(st.integers(0, 11)) == 0,
             "zero_aw": draw(st.integers(0, 3)) == 0, "shuffle": draw(st.integers(0, 2)) == 0,
             "early_fail": draw(st.lists(st.integers(0, 4), max_size=2)) if draw(st.integers(0, 3)) == 0 else [],
-            "ghosts": draw(st.sampled_from([0, 0, 0, 1, 2]))}
+            "ghosts": draw(st.sampled_from([0, 0, 0, 1, 2])),
+            "mid_elab": draw(st.sampled_from([None, None, None, 0, 1, 2])),
+            "base": draw(st.sampled_from([0] * 14 + [1 << 33, (1 << 36) + (1 << 20)])),
+            "readd": draw(st.lists(st.integers(0, 4), max_size=2)) if draw(st.integers(0, 4)) == 0 else []}
 
 
 def wb_sub_map_aw(s):
@@ -420,7 +509,8 @@ def build_wb_decoder(cfg, ifaces=None, prefix="w"):
     else:
         maws = [f.memory_map.addr_width for f in ifaces]
     shuffle = bool(cfg.get("shuffle"))
-    end, plan = plan_windows(cfg["al"], maws, cfg["subs"], shuffle)
+    base = cfg.get("base", 0)
+    end, plan = plan_windows(cfg["al"], maws, cfg["subs"], shuffle, base)
     needed = max(ceil_log2(max(end, 1)), gbits)
     aw = max(0, needed - gbits) + cfg["extra_aw"]
     if cfg["squeeze"] and aw > 0:
@@ -464,8 +554,10 @@ def build_wb_decoder(cfg, ifaces=None, prefix="w"):
             kw["name"] = (f"{prefix}{i}",)
         if s["mode"] == "align" and not shuffle:
             dec.align_to(s["k"])
-        if s["mode"] == "slot" or shuffle:
+        if s["mode"] == "slot" or shuffle or (base and i == 0):
             kw["addr"] = ps
         dec.add(iface, **kw)
         ifaces.append(iface)
+        _mid_elab(dec, cfg, i)
+    _readd(dec, cfg, ifaces, {"sparse": None})
     return dec, ifaces, plan
